@@ -90,6 +90,7 @@ type worldKind struct {
 	name   string
 	powers []int64
 	silent map[int]bool
+	anchored bool
 }
 
 var worldKinds = map[string]worldKind{
@@ -102,7 +103,14 @@ var worldKinds = map[string]worldKind{
 	"life": {name: "life", powers: []int64{10, 10, 10, 10}},
 	// uneven: stakes 40/24/24/12: whom a sweep may jail depends on who was jailed before (25 % protection)
 	"uneven": {name: "uneven", powers: []int64{40, 24, 24, 12}},
+	// clock: the standard world with its genesis time anchored to the REAL clock so that the valset published on the chains turns
+	// 30 days old (in wall-clock terms) about a minute after the world was built; the block time of the scenario stays minutes
+	// after that publication. Code that measures ages with the process clock answers differently before and after that moment.
+	"clock": {name: "clock", powers: []int64{10, 10, 10, 10}, anchored: true},
 }
+
+// how long after the start of its preparation an anchored world crosses its boundary
+const clockLead = 60 * time.Second
 
 // blockAbort is thrown when a block of the world preparation cannot be finalised (reported, never hidden).
 type blockAbort struct{ err error }
@@ -163,6 +171,8 @@ type world struct {
 	hash    string // app hash of the prepared world (must be the same in every process)
 	height  int64
 	nfork   int64
+	// anchored worlds: the wall-clock moment at which the valset published on chain A becomes 30 days old
+	boundary time.Time
 	// C09: the world driven on to the block before a hostile transaction, per stage and height class
 	prepared map[string]*preparedStage
 }
@@ -229,7 +239,12 @@ func newWorldOf(kind worldKind, target int64) (w *world, stack string) {
 		}
 	}()
 	loadCompass()
-	e := env.NewE2(env.E2Options{Seed: drv.Seed(), Powers: kind.powers, NumUsers: nUsers,
+	var genTime time.Time
+	if kind.anchored {
+		// the snapshot that world preparation publishes is built by block 50 (250 s of chain time after genesis)
+		genTime = time.Now().Add(-30*24*time.Hour - 250*time.Second + clockLead).UTC().Truncate(time.Second)
+	}
+	e := env.NewE2(env.E2Options{Seed: drv.Seed(), Powers: kind.powers, NumUsers: nUsers, GenTime: genTime,
 		Genesis: func(cdc codec.Codec, gs app.GenesisState) {
 			// the native denom carries bank metadata (definition of app.BankModule, as on the live chain)
 			var want, bg banktypes.GenesisState
@@ -355,6 +370,11 @@ func newWorldOf(kind worldKind, target int64) (w *world, stack string) {
 	}
 	w.hash = hex.EncodeToString(e.AppHash())
 	w.height = e.Height
+	if kind.anchored {
+		if s, err := e.App.ValsetKeeper.GetLatestSnapshotOnChain(e.Ctx(), chainA); err == nil && s != nil {
+			w.boundary = s.CreatedAt.Add(30 * 24 * time.Hour)
+		}
+	}
 	return w, ""
 }
 
